@@ -51,6 +51,9 @@ pub struct Expect {
     pub used_renamed: BTreeSet<String>,
     /// job executed while >=1 direct consumer is skipped (shielding)
     pub shielding: bool,
+    /// up-to-date jobs with >=1 per-dependency record that differs textually from the upstream's current
+    /// record but is judged unaltered by the configured comparison (the C15 situation)
+    pub textdiff: BTreeSet<String>,
 }
 
 /// The record of what `down` last consumed from `up`: `H[up!!!down]`, or, if `up` is a
@@ -112,7 +115,9 @@ pub fn expected_with(g: &Graph, h: &History, disk: &BTreeMap<String, String>, mo
     let mut cur: BTreeMap<String, String> = BTreeMap::new(); // name -> value currently on offer
     let mut currec: BTreeMap<String, String> = BTreeMap::new(); // job id -> record string
     let mut must: BTreeSet<String> = BTreeSet::new();
+    let mut textdiff: BTreeSet<String> = BTreeSet::new();
     for n in g.topo() {
+        let mut any_textdiff = false;
         let useless = g.useless_ephemeral(&n.id);
         let mut ok = h.contains_key(&n.id) && h.get(&format!("{}!!!", n.id)).map(|x| x.as_str()) == Some(g.input_names(&n.id).as_str());
         if n.kind == JobKind::Output && !n.outs.iter().all(|o| disk.contains_key(o)) {
@@ -129,6 +134,9 @@ pub fn expected_with(g: &Graph, h: &History, disk: &BTreeMap<String, String>, mo
                     Some(c) => {
                         if altered(mode, &consumed, &e.up, &n.id, rec, c) {
                             ok = false
+                        } else if rec != c || (mode == CmpMode::Stamped && must.contains(&e.up)) {
+                            // (a re-executed upstream always reports a new stamp)
+                            any_textdiff = true;
                         }
                     }
                     None => ok = false,
@@ -159,6 +167,9 @@ pub fn expected_with(g: &Graph, h: &History, disk: &BTreeMap<String, String>, mo
             }
         }
         uptodate.insert(n.id.clone(), ok);
+        if ok && any_textdiff {
+            textdiff.insert(n.id.clone());
+        }
         if useless {
             if ok {
                 if let Some(r) = h.get(&n.id) {
@@ -204,5 +215,5 @@ pub fn expected_with(g: &Graph, h: &History, disk: &BTreeMap<String, String>, mo
         .nodes
         .iter()
         .any(|n| executed.contains(&n.id) && g.downs(&n.id).iter().any(|e| !executed.contains(&e.down) && !g.useless_ephemeral(&e.down)));
-    Expect { uptodate, executed, ambiguous, used_renamed, shielding }
+    Expect { uptodate, executed, ambiguous, used_renamed, shielding, textdiff }
 }
